@@ -431,3 +431,135 @@ pub fn replay_step(args: &Args) {
         }
     }
 }
+
+pub fn gen_rational_params(rng: &mut Rng, budget: u64) -> Value {
+    let names: &[&str] = if budget <= 1 { &PRESETS } else { &PRESETS[..3] };
+    if rng.chance(0.5) {
+        return preset(names[rng.below(names.len() as u64) as usize]);
+    }
+    let ab = [json!(["ninf"]), json!(["q", -1, 1]), json!(["q", 0, 1]), json!(["q", 1, 1]), json!(["q", 2, 1]), json!(["pinf"])];
+    let g = [json!(["q", 0, 1]), json!(["q", 1, 1]), json!(["q", 2, 1])];
+    let w = [json!(["ninf"]), json!(["q", 0, 1]), json!(["pinf"])];
+    json!({"a": gen_e(rng, &ab), "b": gen_e(rng, &ab), "g": gen_e(rng, &g), "w": gen_e(rng, &w)})
+}
+
+pub fn gen_run(args: &Args) {
+    let seed = args.num("seed", 1);
+    let n = args.num("n", 100);
+    let only_vanilla_full = args.get_or("vanilla-full", "0") == "1";
+    let mut out = Out::create(args.get("out"));
+    let mut rng = Rng::new(seed ^ 0xc082);
+    for id in 1..=n {
+        let mut r = rng.fork();
+        let mut t = tree::gen_tree(&mut r, &small_cfg(id));
+        tree::shorten(&mut t);
+        label_chance(&mut t);
+        let budget = if only_vanilla_full { 1 + id % 3 } else { id % 4 };
+        let meth = if only_vanilla_full { "Full" } else { METHODS[((id / 4) % 3) as usize] };
+        let par = if only_vanilla_full { preset("vanilla") } else { gen_rational_params(&mut r, budget) };
+        let draws: Vec<Value> = (0..budget).map(|_| gen_draws(&mut r, &t)).collect();
+        out.line(&json!({"id": id, "tree": t, "method": meth, "par": par, "T": budget, "draws": draws}));
+    }
+}
+
+pub struct Solved {
+    pub avg: [Vec<f64>; 2],
+    pub bounds: [f64; 2],
+    pub info: [f64; 3],
+}
+
+/// solve through the public api with the draws pinned
+pub fn solve_pinned(t: &Tree, meth: &str, par: Option<&Value>, budget: u64, max_reg: f64, threads: usize, draws: &[Value], seed: u64) -> Result<Solved, String> {
+    let t2 = t.clone();
+    let par = par.cloned();
+    let draws = draws.to_vec();
+    let meth = meth.to_string();
+    util::catch(move || {
+        let game = tree::build(&t2).map_err(|e| format!("from_root: {e:?}"))?;
+        let dump = game.verif_dump();
+        verif::reset();
+        if !draws.is_empty() {
+            verif::set_draw_table(Some(draw_table(&draws, &meth, &t2, &dump)));
+        }
+        verif::set_draw_seed(Some(seed));
+        let res = game.solve(method(&meth), budget, max_reg, threads, par.as_ref().map(params));
+        verif::reset();
+        let (strat, bound) = res.map_err(|e| format!("solve: {e:?}"))?;
+        let info = strat.get_info();
+        Ok(Solved {
+            avg: strat.verif_dense(),
+            bounds: [bound.player_regret_bound(PlayerNum::One), bound.player_regret_bound(PlayerNum::Two)],
+            info: [info.player_utility(PlayerNum::One), info.player_regret(PlayerNum::One), info.player_regret(PlayerNum::Two)],
+        })
+    })
+    .and_then(|r| r)
+}
+
+pub fn replay_run(args: &Args) {
+    let cases = util::read_ndjson(args.get("cases"));
+    let exps = util::read_ndjson(args.get("exp"));
+    let mut out = Out::create(args.get("out"));
+    let by_id: HashMap<i64, &Value> = exps.iter().map(|e| (e["id"].as_i64().unwrap(), &e["exp"])).collect();
+    let tol = 1e-10;
+    for case in cases.iter() {
+        let id = case["id"].as_i64().unwrap();
+        let Some(exp) = by_id.get(&id) else {
+            out.line(&json!({"id": id, "status": "noexp"}));
+            continue;
+        };
+        let status = exp["status"].as_str().unwrap();
+        let t: Tree = serde_json::from_value(case["tree"].clone()).unwrap();
+        let meth = case["method"].as_str().unwrap();
+        let budget = case["T"].as_u64().unwrap();
+        let draws: Vec<Value> = case["draws"].as_array().unwrap().clone();
+        let game = tree::build(&t).expect("valid");
+        let dump = game.verif_dump();
+        let mut bad = Vec::new();
+        let judged = status == "ok" && exp["tie"].as_bool() == Some(false) && exp["eval"]["poisoned"].as_bool() == Some(false);
+        for threads in [1usize, 2] {
+            let run = match solve_pinned(&t, meth, Some(&case["par"]), budget, 0.0, threads, &draws, 99) {
+                Ok(r) => r,
+                Err(msg) => {
+                    bad.push(json!({"class": "panic", "what": "solve failed or panicked", "threads": threads, "observed": msg}));
+                    continue;
+                }
+            };
+            if !judged {
+                continue;
+            }
+            for pl in 0..2 {
+                let mut at = 0;
+                for info in dump.infos[pl].iter() {
+                    let k = info.actions.len();
+                    let want = ratv(&exp["avg"][pl][&info.infoset]);
+                    if !vec_close(&run.avg[pl][at..at + k], &want, tol) {
+                        bad.push(json!({"class": "returned", "what": "returned strategy differs from the documented algorithm", "threads": threads,
+                            "player": pl + 1, "infoset": info.infoset, "observed": run.avg[pl][at..at + k].to_vec(), "specified": exp["avg"][pl][&info.infoset]}));
+                    }
+                    at += k;
+                }
+                if budget == 0 {
+                    if run.bounds[pl] != f64::INFINITY {
+                        bad.push(json!({"class": "bound", "what": "bound with no iteration is not infinite", "threads": threads, "observed": run.bounds[pl]}));
+                    }
+                } else if !util::close(run.bounds[pl], util::rat(&exp["bounds"][pl]), tol) {
+                    bad.push(json!({"class": "bound", "what": "returned bound differs from the documented algorithm", "threads": threads,
+                        "player": pl + 1, "observed": run.bounds[pl], "specified": exp["bounds"][pl]}));
+                }
+            }
+            let want = [util::rat(&exp["eval"]["util"]), util::rat(&exp["eval"]["r1"]), util::rat(&exp["eval"]["r2"])];
+            if !vec_close(&run.info, &want, tol) {
+                bad.push(json!({"class": "evaluation", "what": "get_info of the returned profile differs from the exact evaluation", "threads": threads,
+                    "observed": run.info.to_vec(), "specified": want.to_vec()}));
+            }
+        }
+        if !bad.is_empty() {
+            out.line(&json!({"id": id, "status": "violation", "mismatch": bad}));
+        } else if !judged {
+            let st = if status != "ok" { status } else if exp["tie"].as_bool() == Some(true) { "tie" } else { "poisoned" };
+            out.line(&json!({"id": id, "status": st}));
+        } else {
+            out.line(&json!({"id": id, "status": "ok", "nontrivial": budget >= 1}));
+        }
+    }
+}
